@@ -560,25 +560,25 @@ def histories_for(ctx):
     ncorpus = len(hs)
     depth = 2 if quick else 3
     ex = exhaustive(depth, kinds)
-    if quick:
-        # a seeded sample of the next depth as well
-        deeper = exhaustive(depth + 1, kinds)
-        rng.shuffle(deeper)
-        ex += deeper[:12000]
+    # a seeded sample of the next depth as well
+    nsample = 12000 if quick else 150000
+    deeper = exhaustive(depth + 1, kinds if quick else "".join(k for k in kinds if len(SMALL[k]) > 12))
+    rng.shuffle(deeper)
+    ex += deeper[:nsample]
     parts = [("corpus", hs), ("exhaustive", ex)]
     if c05:
-        longs = [long_history(rng, 300, rng.choice(["L", "M", "U", "H", "S", "P", "Q", "LMUHSPQ", "PQ", "HS", "MU"])) for _ in range(60 if quick else 600)]
+        longs = [long_history(rng, 300, rng.choice(["L", "M", "U", "H", "S", "P", "Q", "LMUHSPQ", "PQ", "HS", "MU"])) for _ in range(60 if quick else 1500)]
         parts += [("long", longs), ("clients", client_patterns(rng))]
-        rnd = [gen_history(rng, rng.choice([8, 15, 30]), kinds, alias=0.2) for _ in range(3000 if quick else 40000)]
+        rnd = [gen_history(rng, rng.choice([8, 15, 30]), kinds, alias=0.2) for _ in range(3000 if quick else 60000)]
     else:
         parts.append(("array-boundaries", array_boundaries(8 if quick else 12)))
         rnd = [gen_history(rng, rng.choice([6, 12, 25, 40]), rng.choice([KINDS, KINDS, "A", "L", "AL", "MU", "HS", "PQ"]),
-                           alias=rng.choice([0.2, 0.5])) for _ in range(5000 if quick else 60000)]
+                           alias=rng.choice([0.2, 0.5])) for _ in range(5000 if quick else 100000)]
     parts.append(("random", rnd))
     allh = [h for _, p in parts for h in p]
     ctx.cov["rule"] = (f"corpus ({ncorpus}) + exhaustive: per container kind all op sequences of length <= {depth} "
                        f"(<= {depth + 1} for the pool kinds) over the alphabets SMALL[kind] of tools/areas/life.py ({', '.join(f'{k}:{len(SMALL[k])}' for k in kinds)} ops, "
-                       f"incl. every alias op){' + a seeded sample of 12000 of length ' + str(depth + 1) if quick else ''} = {len(ex)} histories"
+                       f"incl. every alias op){' + a seeded sample of ' + str(nsample) + ' of length ' + str(depth + 1)} = {len(ex)} histories"
                        + ("" if c05 else f" + Array alias ops (appendref/resizeref/appendptr/appendarr self/assign self) at every size 0..{8 if quick else 12} x 4 ways of reaching the capacity")
                        + f" + {len(rnd)} structured random histories over 2 variables per kind"
                        + (f" + {len(parts[2][1])} long histories (300 ops, long-lived elements) + {len(parts[3][1])} scripted client patterns (Server pools, Future contexts, Callback slots)" if c05 else "")
